@@ -12,9 +12,11 @@ import (
 	"sync"
 	"time"
 
+	"github.com/DataDog/datadog-traceroute/common"
 	"github.com/DataDog/datadog-traceroute/packets"
 	"github.com/DataDog/datadog-traceroute/publicip"
 	"github.com/DataDog/datadog-traceroute/reversedns"
+	"github.com/DataDog/datadog-traceroute/sack"
 	"github.com/DataDog/datadog-traceroute/traceroute"
 	"github.com/cenkalti/backoff/v5"
 
@@ -430,6 +432,36 @@ func runC08RdnsRealTime(c *fw.Ctx, id string) {
 	}
 }
 
+// runC08SackSilentTarget: a SACK run against a target that silently drops the SYN (an address behind the peer
+// namespace, which does not forward). The TCP dial is a real syscall, so this runs on the REAL clock, outside a
+// bubble. The dial must be abandoned after HandshakeTimeout (300 ms); the whole-run deadline (handshake + FIN
+// allowance + listening time, 8.6 s here; 500 s in production) is not a bound a caller can live with. Coarse on
+// purpose: the verdict threshold is 4 s.
+func runC08SackSilentTarget(c *fw.Ctx, id string) {
+	target := netip.AddrFrom4([4]byte{10, 205, byte(10 + c.Worker), 9})
+	w := simnet.NewWire()
+	unreg := simnet.Register(w, target)
+	defer unreg()
+	pp := common.TracerouteParallelParams{TracerouteParams: common.TracerouteParams{MinTTL: 1, MaxTTL: 3, TracerouteTimeout: 200 * time.Millisecond, PollFrequency: 50 * time.Millisecond, SendDelay: 10 * time.Millisecond}}
+	t0 := time.Now()
+	_, err := sack.RunSackTraceroute(context.Background(), sack.Params{Target: netip.AddrPortFrom(target, 8080), HandshakeTimeout: 300 * time.Millisecond,
+		FinTimeout: 8 * time.Second, ParallelParams: pp})
+	el := time.Since(t0)
+	c.Nontrivial("sack-silent-target")
+	c.Count("sack_silent_dial_ms", int(el.Milliseconds()))
+	if err == nil {
+		c.Violate("C08", "silent-target-succeeded", id+": the target never answered the SYN but the SACK run succeeded", nil)
+		return
+	}
+	c.Sample(map[string]any{"case": id, "real_elapsed": el.String(), "error": err.Error()})
+	if el > 4*time.Second {
+		c.Violate("C08", "sack-dial-unbounded", fmt.Sprintf("%s: a SACK run against a silent target took %v of real time; the handshake timeout is 300 ms (error: %v)", id, el.Round(100*time.Millisecond), err), nil)
+	}
+	if lc := w.Lifecycle(); len(lc) > 0 {
+		c.Violate("C10", "lifecycle/sack-silent-target", fmt.Sprintf("%s: %v", id, lc), nil)
+	}
+}
+
 func runC08Rdns(c *fw.Ctx, id string, r *rand.Rand) {
 	resetProcessState()
 	release := make(chan struct{})
@@ -542,6 +574,7 @@ func checkC08() fw.Check {
 			var cases []fw.Case
 			// first: if this one already shows a serialised fan-out, the bubble cases below would stall on it
 			cases = append(cases, fw.Case{ID: "C08/rdns-realtime", Run: func(c *fw.Ctx) { runC08RdnsRealTime(c, c.ID) }})
+			cases = append(cases, fw.Case{ID: "C08/sack-silent-target", Run: func(c *fw.Ctx) { runC08SackSilentTarget(c, c.ID) }})
 			wins := []window{{1, 6}}
 			if tier == "thorough" {
 				wins = []window{{1, 6}, {250, 255}, {1, 30}}
